@@ -15,7 +15,51 @@ import (
 
 // sectionOf returns the Lock call that opened the critical section of `lock` in which `at` executes, or nil.
 // `at` must be reachable from that Lock without crossing an Unlock/Lock of the same mutex, and the Lock must dominate it.
+//
+// An unexported function that every caller calls with the lock held (the worker half of an entry/worker pair) runs in
+// the section of its caller: that section is named by a mark of the function's entry. `at` may be nil: the entry.
 func (c *Ctx) sectionOf(fn *ssa.Function, at ssa.Instruction, lock string) ssa.Instruction {
+	if at == nil {
+		if c.locks().entry[fn][lock] {
+			return c.entryMark(fn)
+		}
+		return nil
+	}
+	if at.Parent() != fn {
+		return nil
+	}
+	if best := c.sectionOfLock(fn, at, lock); best != nil {
+		return best
+	}
+	if c.locks().entry[fn][lock] && c.reachesWithoutUnlock(nil, at, lock) {
+		return c.entryMark(fn)
+	}
+	return nil
+}
+
+// entrySection marks the entry of a function as the start of a critical section its callers opened.
+type entrySection struct {
+	ssa.Instruction
+	fn *ssa.Function
+}
+
+func (c *Ctx) entryMark(fn *ssa.Function) ssa.Instruction {
+	if c.entryMarks == nil {
+		c.entryMarks = map[*ssa.Function]*entrySection{}
+	}
+	if c.entryMarks[fn] == nil {
+		c.entryMarks[fn] = &entrySection{fn: fn}
+	}
+	return c.entryMarks[fn]
+}
+
+// condSection: the critical section of `lock` in which the condition was established - that of the instruction that
+// computed it, of the call whose outcome implies it, or the one the callers hold on entry.
+func (c *Ctx) condSection(fn *ssa.Function, cond core.Cond, lock string) ssa.Instruction {
+	return c.sectionOf(fn, cond.Anchor(), lock)
+}
+
+func (c *Ctx) sectionOfLock(fn *ssa.Function, at ssa.Instruction, lock string) ssa.Instruction {
 	var best ssa.Instruction
 	for _, b := range fn.Blocks {
 		for _, in := range b.Instrs {
@@ -68,6 +112,15 @@ func (c *Ctx) reachesWithoutUnlock(from, to ssa.Instruction, lock string) bool {
 			}
 		}
 		return false
+	}
+	if from == nil {
+		// from the entry of the function
+		fn := to.Parent()
+		if fn == nil || len(fn.Blocks) == 0 {
+			return false
+		}
+		seen[fn.Blocks[0]] = true
+		return walk(fn.Blocks[0], 0)
 	}
 	b := from.Block()
 	idx := 0
@@ -139,7 +192,7 @@ func (c *Ctx) ruleAtomic(rule string) {
 					tname := sn.Obj().Pkg().Name() + "." + sn.Obj().Name()
 					k := key(rule, c.M.Key(fn), "check-then-insert on "+tname+"."+fieldName(fa.X.Type(), fa.Field))
 					lock := c.M.ValPath(fa.X) + "." + mutex
-					s1 := c.sectionOf(fn, lk, lock)
+					s1 := c.condSection(fn, cond, lock)
 					s2 := c.sectionOf(fn, mu, lock)
 					pos := c.M.InstrPos(mu)
 					switch {
@@ -264,7 +317,7 @@ func (c *Ctx) clearSummary(fn *ssa.Function, ro *atpRoles, memo map[*ssa.Functio
 	}
 	states := c.clearFlow(fn, ro, memo, depth, false)
 	all, iftrue := true, true
-	rets := core.ReturnsOf(fn)
+	rets := core.ReturnInstrs(fn)
 	if len(rets) == 0 {
 		all, iftrue = false, false
 	}
@@ -377,7 +430,7 @@ func (c *Ctx) ruleMustPass(rule string) {
 	memo := map[*ssa.Function]string{}
 	fn := ro.readLoop
 	states := c.clearFlow(fn, ro, memo, 0, true)
-	rets := core.ReturnsOf(fn)
+	rets := core.ReturnInstrs(fn)
 	sort.Slice(rets, func(i, j int) bool { return rets[i].Pos() < rets[j].Pos() })
 	for i, r := range rets {
 		k := key(rule, c.M.Key(fn), sprintf("exit#%d (%s)", i+1, c.exitDesc(r)))
@@ -533,7 +586,7 @@ func (c *Ctx) mustDone(fn *ssa.Function, w wgRef, depth int) bool {
 			}
 		}
 	}
-	rets := core.ReturnsOf(fn)
+	rets := core.ReturnInstrs(fn)
 	if len(rets) == 0 {
 		return false
 	}
@@ -798,11 +851,11 @@ func (c *Ctx) addsOnNilError(fn *ssa.Function, w wgRef) bool {
 	hold := mustHoldGen(fn, func(core.Cond) bool { return false }, gen)
 	n := 0
 	for _, r := range core.ReturnsOf(fn) {
-		if c.M.ProvablyNonNilError(core.RetVal(r, ei), r.Block()) {
+		if c.M.RetNonNil(r, ei) {
 			continue
 		}
 		n++
-		if !hold[r.Block()] && !gen(r.Block()) {
+		if !hold[r.Key()] && !gen(r.Block()) {
 			return false
 		}
 	}
@@ -1535,7 +1588,7 @@ func (c *Ctx) emissionSummary(fn *ssa.Function, ro *atpRoles, workDoneID int64, 
 	in := c.countFlow(fn, ro, workDoneID, memo, depth)
 	res := cnt{2, 0}
 	any := false
-	for _, r := range core.ReturnsOf(fn) {
+	for _, r := range core.ReturnInstrs(fn) {
 		st := in[r.Block().Index]
 		for _, ins := range r.Block().Instrs {
 			st = st.add(c.emissionOf(ins, ro, workDoneID, memo, depth))
@@ -1633,7 +1686,7 @@ func (c *Ctx) ruleExactlyOne(rule string) {
 	}
 	memo := map[*ssa.Function]*cnt{}
 	in := c.countFlow(runner, ro, workDoneID, memo, 0)
-	rets := core.ReturnsOf(runner)
+	rets := core.ReturnInstrs(runner)
 	sort.Slice(rets, func(i, j int) bool { return rets[i].Pos() < rets[j].Pos() })
 	// deferred recover closure: emits exactly one when recover() != nil and none otherwise
 	var deferred *ssa.Function
@@ -1703,7 +1756,7 @@ func (c *Ctx) ruleExactlyOne(rule string) {
 		pos   string
 	}
 	var paths []exitPath
-	for _, r := range core.ReturnsOf(deferred) {
+	for _, r := range core.ReturnInstrs(deferred) {
 		rb := r.Block()
 		tail := cnt{}
 		for _, ins := range rb.Instrs {
@@ -2096,6 +2149,17 @@ func (c *Ctx) deliverResultClause(rule string, ro *atpRoles, deliver map[*ssa.Fu
 						}
 					}
 				}
+			}
+		}
+	}
+	// a wrapper that hands on what the storing function reports (takes the mutex for it, say) is a delivery like it
+	for round := 0; round < 3; round++ {
+		for _, fn := range c.M.SortedFuncs(c.scopePkg("atp")) {
+			if direct[fn] || ranges[fn] || !c.methodOrClosureOf(fn, ro.clientT) || fn.Signature.Results().Len() != 1 {
+				continue
+			}
+			if callee, _, ok := core.PassesOn(fn, 0); ok && direct[callee] {
+				direct[fn] = true
 			}
 		}
 	}
@@ -3376,7 +3440,7 @@ func (c *Ctx) ruleDoneGate(rule string) {
 						return false
 					}
 					lk, ok := ex.Tuple.(*ssa.Lookup)
-					return ok && lk.CommaOk && c.isFieldLoad(lk.X, ro.clientT, ro.pending) && c.M.ValPath(lk.Index) == c.M.ValPath(mu.Key)
+					return ok && lk.CommaOk && c.isFieldLoad(lk.X, ro.clientT, ro.pending) && c.M.CondPath(fn, cond, lk.Index) == c.M.ValPath(mu.Key)
 				}
 				if core.MustHold(fn, notFound)[b] {
 					c.R.Ok(rule, k, c.M.InstrPos(mu), "insertion into the pending table", "on every path the lookup of the same key found no entry")
